@@ -49,14 +49,20 @@ func C12_Mutate() {
 
 	ctx := env.CancelWhenIdle()
 	env.ChanOffer(n.m.messagesChannel, mut)
-	p := env.Catch(func() { n.m.run(ctx) })
+	p := 0
+	env.Assert("C12.bounded_work", env.Bounded(func() { p = env.Catch(func() { n.m.run(ctx) }) }))
 	env.Assert("C12.main.no_panic", p == 0)
 	if p != 0 {
 		return
 	}
 	if env.ChanBuffered(n.m.worker.MessagesChannel) == 1 {
 		fw := <-n.m.worker.MessagesChannel
-		p2 := env.Catch(func() { n.m.worker.handleRawMessage(fw) })
+		p2 := 0
+		bounded := env.Bounded(func() { p2 = env.Catch(func() { n.m.worker.handleRawMessage(fw) }) })
+		env.Assert("C12.bounded_work", bounded)
+		if !bounded {
+			return
+		}
 		env.Assert("C12.worker.no_panic", p2 == 0)
 		env.Reach("C12.mutate.forwarded")
 	}
@@ -67,7 +73,10 @@ func C12_Mutate() {
 	const tw = 2 // the twin is member 2 (a follower in view 1)
 	twin := newWorld(tw, equalWeights(4))
 	twin.n.timeout()
-	p3 := env.Catch(func() { twin.n.m.worker.handleRawMessage(mut) })
+	p3 := 0
+	if !env.Bounded(func() { p3 = env.Catch(func() { twin.n.m.worker.handleRawMessage(mut) }) }) {
+		return
+	}
 	env.Assert("C12.worker.no_panic", p3 == 0)
 	tv := twin.n.m.state.View()
 	ldr := int(uint64(tv) % 4)
@@ -127,7 +136,12 @@ func C12_Bytes() {
 		return
 	}
 	ctx2 := env.CancelWhenIdle()
-	p2 := env.Catch(func() { n.m.worker.Run(ctx2) })
+	p2 := 0
+	bounded := env.Bounded(func() { p2 = env.Catch(func() { n.m.worker.Run(ctx2) }) })
+	env.Assert("C12.bounded_work", bounded)
+	if !bounded {
+		return
+	}
 	env.Assert("C12.worker.no_panic", p2 == 0)
 	env.Reach("C12.bytes.done")
 }
